@@ -15,6 +15,7 @@ import (
 	"fmt"
 	"go/ast"
 	"go/token"
+	"sort"
 	"strings"
 )
 
@@ -365,5 +366,148 @@ func init() {
 		}
 		sb.WriteString("end Sif.Generated.Perms\n")
 		return c.WriteLean("Perms", sb.String())
+	}
+}
+
+// ---- the shared lookup helper x/tokenregistry/keeper/keeper.go GetEntry -------------------------
+// Fact: which fields of a registry entry the function looks at (every selector on an entry value),
+// whether its only successful return hands back the element whose `.Denom == denom` test just
+// passed (first match in slice order), and whether falling out of the loop returns (nil, error).
+// Any other shape (a second successful return, a comparison of another field, a fallback after the
+// loop) is reported as it is seen, so the Lean obligation `lookup = expected` fails.
+
+type lookupFacts struct {
+	fields        []string
+	okReturns     int  // return statements whose first result is not nil
+	matchReturn   bool // one of them sits directly in `if … e.Denom == denom { return <elem>, nil }` inside `for … range wl.Entries`
+	notFoundIsErr bool // last statement: return nil, <non-nil>
+	condShape     string
+}
+
+func analyzeGetEntry(c *Ctx, fd *ast.FuncDecl) lookupFacts {
+	var lf lookupFacts
+	if fd == nil || fd.Body == nil || fd.Type.Params == nil || len(fd.Type.Params.List) < 2 {
+		lf.condShape = "missing"
+		return lf
+	}
+	regName, denomName := "", ""
+	if len(fd.Type.Params.List[0].Names) == 1 {
+		regName = fd.Type.Params.List[0].Names[0].Name
+	}
+	if len(fd.Type.Params.List[1].Names) == 1 {
+		denomName = fd.Type.Params.List[1].Names[0].Name
+	}
+	entriesExpr := regName + ".Entries"
+	// every field selected on something that is an entry: <reg>.Entries[i].F or <ident>.F where ident was
+	// assigned from <reg>.Entries[...]
+	entryVars := map[string]bool{}
+	ast.Inspect(fd.Body, func(n ast.Node) bool {
+		if as, ok := n.(*ast.AssignStmt); ok && len(as.Lhs) == len(as.Rhs) {
+			for i := range as.Rhs {
+				src := c.Src(as.Rhs[i])
+				if id, ok := as.Lhs[i].(*ast.Ident); ok && (strings.HasPrefix(src, entriesExpr+"[") || entryVars[src]) {
+					entryVars[id.Name] = true
+				}
+			}
+		}
+		if rs, ok := n.(*ast.RangeStmt); ok && c.Src(rs.X) == entriesExpr && rs.Value != nil {
+			if id, ok := rs.Value.(*ast.Ident); ok {
+				entryVars[id.Name] = true
+			}
+		}
+		return true
+	})
+	seen := map[string]bool{}
+	ast.Inspect(fd.Body, func(n ast.Node) bool {
+		sel, ok := n.(*ast.SelectorExpr)
+		if !ok {
+			return true
+		}
+		x := c.Src(sel.X)
+		if entryVars[x] || strings.HasPrefix(x, entriesExpr+"[") {
+			if !seen[sel.Sel.Name] {
+				seen[sel.Sel.Name] = true
+				lf.fields = append(lf.fields, sel.Sel.Name)
+			}
+		}
+		return true
+	})
+	sort.Strings(lf.fields)
+	// successful returns
+	var walk func(list []ast.Stmt, inLoop bool)
+	walk = func(list []ast.Stmt, inLoop bool) {
+		for _, st := range list {
+			switch s := st.(type) {
+			case *ast.ReturnStmt:
+				if len(s.Results) == 2 {
+					if id, ok := s.Results[0].(*ast.Ident); !(ok && id.Name == "nil") {
+						lf.okReturns++
+					}
+				}
+			case *ast.RangeStmt:
+				walk(s.Body.List, c.Src(s.X) == entriesExpr)
+			case *ast.ForStmt:
+				walk(s.Body.List, false)
+			case *ast.BlockStmt:
+				walk(s.List, inLoop)
+			case *ast.IfStmt:
+				cond := c.Src(s.Cond)
+				good := false
+				for v := range entryVars {
+					if cond == fmt.Sprintf("%s != nil && %s.Denom == %s", v, v, denomName) || cond == fmt.Sprintf("%s.Denom == %s", v, denomName) {
+						good = true
+					}
+				}
+				if good && inLoop && s.Else == nil && len(s.Body.List) == 1 {
+					if r, ok := s.Body.List[0].(*ast.ReturnStmt); ok && len(r.Results) == 2 {
+						first := c.Src(r.Results[0])
+						second := c.Src(r.Results[1])
+						if (entryVars[first] || strings.HasPrefix(first, entriesExpr+"[")) && second == "nil" {
+							lf.matchReturn = true
+							lf.condShape = "denomEq"
+						}
+					}
+				}
+				walk(s.Body.List, inLoop)
+				if s.Else != nil {
+					if b, ok := s.Else.(*ast.BlockStmt); ok {
+						walk(b.List, inLoop)
+					} else {
+						walk([]ast.Stmt{s.Else}, inLoop)
+					}
+				}
+			}
+		}
+	}
+	walk(fd.Body.List, false)
+	if n := len(fd.Body.List); n > 0 {
+		if r, ok := fd.Body.List[n-1].(*ast.ReturnStmt); ok && len(r.Results) == 2 {
+			if id, ok := r.Results[0].(*ast.Ident); ok && id.Name == "nil" {
+				if id2, ok := r.Results[1].(*ast.Ident); !(ok && id2.Name == "nil") {
+					lf.notFoundIsErr = true
+				}
+			}
+		}
+	}
+	if lf.condShape == "" {
+		lf.condShape = "unknown"
+	}
+	return lf
+}
+
+func init() {
+	passes["lookup"] = func(c *Ctx) error {
+		files, err := c.ParseDir("x/tokenregistry/keeper")
+		if err != nil {
+			return err
+		}
+		lf := analyzeGetEntry(c, FindFunc(files, "keeper", "GetEntry"))
+		var q []string
+		for _, f := range lf.fields {
+			q = append(q, LeanStr(f))
+		}
+		body := "import Sif.Model.Registry\n/- x/tokenregistry/keeper/keeper.go GetEntry: what the lookup looks at -/\nnamespace Sif.Generated.Lookup\nopen Sif.Registry\n\n" +
+			fmt.Sprintf("def getEntry : LookupFacts := ⟨[%s], %d, %s, %s⟩\n\nend Sif.Generated.Lookup\n", strings.Join(q, ", "), lf.okReturns, b2l(lf.matchReturn), b2l(lf.notFoundIsErr))
+		return c.WriteLean("Lookup", body)
 	}
 }
